@@ -178,6 +178,17 @@ def check_reimports(ctx, case, db, dbfn, cfg, feats, in_domain, res):
     import warnings
     cl = case["checklines"]
     printed = [str(f) for f in feats]
+    # the Feature objects handed out are the caller's: changing their value lists / extra columns in place (without
+    # update()) must not change what the database yields afterwards
+    for f in feats:
+        for v in f.attributes._d.values():
+            v.append("edited-in-place")
+        f.extra.append("edited-in-place")
+    again = [str(f) for f in db.all_features()]
+    if again != printed:
+        common.fail(res, case, "iteration_differs_after_editing_fetched_objects",
+                    "iterating the database again, after the Feature objects of the first iteration were edited in place "
+                    "(no update()), does not yield the stored lines", observed=again, expected=printed)
     if case["dbfn"] != "memory":
         db.conn.commit()
         db2 = gffutils.FeatureDB(dbfn, keep_order=True)
